@@ -36,6 +36,8 @@ SPEC = {
         # "the group is reported as muted … by the API": the group marker of a live group survives every interleaving of
         # maintenance with the re-creation of the group (C06's scheduled engine; its stage is a muted flush)
         {"name": "groupsched", "pkg": "./groupsched", "search_cases": 3000, "quick_cases": 600, "only": ["route_gate"]},
+        # "the group is reported as muted, with the muting interval names, by the API" — and only that group (C17's engine: the real application, op gmuted)
+        {"name": "reload", "pkg": "./reload", "search_cases": 4, "timeout_quick": 400, "timeout_thorough": 900, "timeout_search": 400, "only": ["route_gate"]},
     ],
     "rule": "interval specifications rendered as YAML (flow quoted / flow plain / block) or JSON and parsed by the real unmarshallers and config.Load "
             "(weekday names and ranges, negative and mixed days of month, month names and numbers, years, 1-3 time ranges incl. 24:00, locations, "
